@@ -148,7 +148,7 @@ Definition with_voting (blk : Z) (p : prec) (vdl : Z) (vs : list vote) : prec :=
   mkP (p_store p) StVoting (p_outcome p) (p_type p) (p_proposer p) (p_fdl p) vdl (p_goal p)
       (p_pass p) (p_total p) (p_indiv p) vs blk (p_newf p) (p_extra p).
 
-(* DeleteAllFunds (since /repo d859128: the funders are collected first and the scan skips deleted records): every
+(* DeleteAllFunds (since /repo 9dda72d: the funders are collected first and the scan skips deleted records): every
    funder record goes and the total is set to 0.  The scan still sees committed keys only; a record written in the
    block of the finalisation would survive, but none can exist: the tally sees the votes only from the block after
    the snapshot on, and contributions stop at the snapshot. *)
@@ -227,7 +227,7 @@ Definition h_create (s : state) (e : env) (id : N) (ty : ptype) (proposer : N)
        end.
 
 Definition h_fund (s : state) (e : env) (id funder : N) (amt : Z) : hres :=
-  if amt <=? 0 then None else     (* /repo 65cdcf3: a contribution is a positive amount *)
+  if amt <=? 0 then None else     (* /repo 782c385: a contribution is a positive amount *)
   match g_props s !! id with
   | Some p =>
       if negb (bool_decide (p_store p = SActive)) then None
@@ -255,7 +255,7 @@ Definition h_vote (s : state) (e : env) (id val : N) (o : opinion) : hres :=
                (* ResultSoFar iterates the committed tree: in the block of the snapshot it finds no records *)
                if p_snapblk p =? g_blk s then None else
                let p1 := with_votes p vs in
-               let p2 := match tally vs (p_pass p) with   (* /repo c39c303: the proposal's own percentage *)
+               let p2 := match tally vs (p_pass p) with   (* /repo 23f7d29: the proposal's own percentage *)
                          | RPassed => with_stage p1 SPassed StCompleted OCompletedYes
                          | RFailed => with_stage p1 SFailed StCompleted OCompletedNo
                          | RTBD => p1
@@ -282,7 +282,7 @@ Definition refundable (oc : outcome) : bool :=
 Definition h_withdraw (s : state) (id funder : N) (amt : Z) (ben : N) : hres :=
   match g_props s !! id with
   | Some p =>
-      (* /repo d859128: only while the proposal is in the active or the failed store; 7960770: positive amounts only *)
+      (* /repo 9dda72d: only while the proposal is in the active or the failed store; 19a3caa: positive amounts only *)
       if negb (bool_decide (p_store p = SActive) || bool_decide (p_store p = SFailed)) then None
       else if amt <=? 0 then None
       else
